@@ -79,6 +79,8 @@ func histVec(r *rand.Rand, dim int, style int) []float32 {
 			v[i] = coordPool[r.Intn(len(coordPool))]
 		case 1:
 			v[i] = float32(r.NormFloat64())
+		case 5: // magnitudes whose squared differences leave the float32 range: such distances are +Inf, still distances
+			v[i] = []float32{1e19, -2e19, 3e19, 1, 0, -1, 1e20, 2}[r.Intn(8)]
 		case 4: // clusters of very different radius along the first axis (a tight one, a wide one, a medium one)
 			if i == 0 {
 				c := r.Intn(3)
@@ -105,6 +107,9 @@ type vecHistOpts struct {
 	gauss      bool
 	fine       bool // near-duplicate coordinates (style 3 of histVec)
 	radii      bool // clusters of very different radius (style 4)
+	forceStyle int  // > 0: that style of histVec; < 0: style 0 (small pool, exact ties)
+	mirror     bool // training sets, stored vectors and queries symmetric about the first axis: centroids come in
+	// mirror pairs, and a query with first coordinate 0 is exactly as far from one as from the other
 }
 
 type liveVec struct {
@@ -128,6 +133,11 @@ func runVecHistory(r *rand.Rand, p vecParams, o vecHistOpts, t *Trace) *Case {
 	if o.radii {
 		style = 4
 	}
+	if o.forceStyle > 0 {
+		style = o.forceStyle
+	} else if o.forceStyle < 0 {
+		style = 0
+	}
 	if o.gauss {
 		style = 1
 	}
@@ -149,6 +159,7 @@ func runVecHistory(r *rand.Rand, p vecParams, o vecHistOpts, t *Trace) *Case {
 		}
 		return n
 	}
+	mirrorA := float32(1 + r.Intn(3))
 	emitTrain := func(n int) {
 		vs := make([][]float32, n)
 		nodes := make([]comet.VectorNode, n)
@@ -158,6 +169,14 @@ func runVecHistory(r *rand.Rand, p vecParams, o vecHistOpts, t *Trace) *Case {
 				vs[i] = cloneVec(dupBase) // duplicates => empty clusters / equal centroids
 			} else {
 				vs[i] = histVec(r, p.dim, style)
+			}
+			if o.mirror {
+				if i%2 == 1 {
+					vs[i] = cloneVec(vs[i-1])
+					vs[i][0] = -vs[i][0]
+				} else {
+					vs[i][0] = mirrorA
+				}
 			}
 			nodes[i] = *comet.NewVectorNodeWithID(uint32(1000+i), cloneVec(vs[i]))
 		}
@@ -225,8 +244,16 @@ func runVecHistory(r *rand.Rand, p vecParams, o vecHistOpts, t *Trace) *Case {
 			emitDump()
 		}
 		if o.serialize && (step == o.nops/2 || r.Intn(12) == 0) {
+			if p.kind == 1 && len(resident) > 0 && r.Intn(2) == 0 {
+				// the index is trained again over the vectors it holds: they stay in the lists they are in,
+				// under new centroids -- and that, not a re-filing, is what gets written and read back
+				emitTrain(o.ntrain)
+				emitDump()
+				t.Stat("vec.retrain_before_write")
+			}
 			// the law of a reload, between two answers of the implementation: what a probe query finds
 			// before the index is written is what it finds in the index read back (all eligible hits, k = all)
+			probeNP := 1 + r.Intn(p.nlist) // the lists are part of what is written: fewer probes see the same, too
 			probe := func(ix comet.VectorIndex) ([][2]uint64, int) {
 				if !ix.Trained() || len(resident) == 0 {
 					return nil, -1
@@ -234,7 +261,7 @@ func runVecHistory(r *rand.Rand, p vecParams, o vecHistOpts, t *Trace) *Case {
 				q := cloneVec(resident[len(resident)/2].raw)
 				var res []comet.VectorResult
 				var pe error
-				if catchPanic(func() { res, pe = ix.NewSearch().WithQuery(q).WithK(0).WithNProbes(p.nlist).Execute() }) {
+				if catchPanic(func() { res, pe = ix.NewSearch().WithQuery(q).WithK(0).WithNProbes(probeNP).Execute() }) {
 					return nil, 12
 				}
 				out := make([][2]uint64, len(res))
@@ -324,6 +351,9 @@ func runVecHistory(r *rand.Rand, p vecParams, o vecHistOpts, t *Trace) *Case {
 				t.Stat("vec.add_wrong_dim")
 			}
 			v := histVec(r, dim, style)
+			if o.mirror {
+				v[0] = []float32{mirrorA, -mirrorA}[r.Intn(2)]
+			}
 			if len(resident) > 0 && r.Intn(6) == 0 && dim == p.dim {
 				v = cloneVec(resident[r.Intn(len(resident))].raw) // exact duplicate vector
 				t.Stat("vec.add_duplicate_vector")
@@ -379,7 +409,7 @@ func runVecHistory(r *rand.Rand, p vecParams, o vecHistOpts, t *Trace) *Case {
 			}
 			ops = append(ops, func(c *Case) { c.N(3) })
 			t.Stat("vec.flush")
-		case x < 62 && p.kind != 0 && !o.trainFirst: // train late / again
+		case x < 62 && p.kind != 0 && (!o.trainFirst || r.Intn(3) == 0): // train late / again (also over stored vectors)
 			emitTrain(o.ntrain)
 		default: // search
 			nq := 1
@@ -399,6 +429,9 @@ func runVecHistory(r *rand.Rand, p vecParams, o vecHistOpts, t *Trace) *Case {
 				qs[i] = histVec(r, dim, style)
 				if len(resident) > 0 && r.Intn(5) == 0 && dim == p.dim {
 					qs[i] = cloneVec(resident[r.Intn(len(resident))].raw)
+				}
+				if o.mirror && r.Intn(2) == 0 {
+					qs[i][0] = 0 // on the mirror plane: equidistant from the two centroids of a pair
 				}
 				if p.metric == 2 && r.Intn(3) == 0 {
 					// cosine: a query far from unit length (the index must normalise it before ranking
